@@ -640,6 +640,9 @@ fn line_dump(dwarf: &gimli::Dwarf<Rd<'static>>, unit: Option<&gimli::Unit<Rd<'st
                 if !cur.is_empty() {
                     seqs.push(json!({"present":true,"rows":std::mem::take(&mut cur),"err":"unterminated"}));
                 }
+                if rows.header().file_names().len() != files.len() {
+                    files = files_of(rows.header());
+                }
                 break;
             }
             Err(e) => {
@@ -955,6 +958,7 @@ fn run_dwarf(base: &str, api: &str, secs: Secs, endian: RunTimeEndian, seed: u64
             ev["unit"] = json!(ui);
             ev["seq"] = json!(si);
             ev["ins"] = a.map(|u| u.line_hdr["ins"].clone()).unwrap_or(json!([]));
+            ev["maxops"] = a.map(|u| u.line_hdr["maxops"].clone()).unwrap_or(json!(0));
             ev["again"] = again.clone();
             let (x, y, z) = pick3(a.and_then(|u| u.seqs.get(si)), b.and_then(|u| u.seqs.get(si)), c3.and_then(|u| u.seqs.get(si)), &absent_seq);
             ev["min"] = x;
@@ -1056,6 +1060,7 @@ fn run_line(base: &str, secs: Secs, endian: RunTimeEndian, asz: u8, by_sequence:
         },
     };
     let ins0 = h0["ins"].clone();
+    let maxops0 = h0["maxops"].clone();
     let mut ev = tag();
     ev["ev"] = json!("ConvLineHeader");
     ev["unit"] = json!(0);
@@ -1072,6 +1077,7 @@ fn run_line(base: &str, secs: Secs, endian: RunTimeEndian, asz: u8, by_sequence:
         ev["seq"] = json!(i);
         ev["again"] = again.clone();
         ev["ins"] = ins0.clone();
+        ev["maxops"] = maxops0.clone();
         ev["min"] = s0.get(i).cloned().unwrap_or_else(absent_seq);
         ev["mout"] = q1.get(i).cloned().unwrap_or_else(absent_seq);
         ev["mout2"] = q2.get(i).cloned().unwrap_or_else(absent_seq);
@@ -1174,8 +1180,13 @@ fn gen_dwarf(seed: u64, endian: RunTimeEndian) -> Result<Secs, String> {
             };
             let (lb, lr) = *r.pick(&[(-5i8, 14u8), (-3, 12), (-1, 4), (0, 1), (-128, 255), (-3, 4)]);
             let lenc = gimli::LineEncoding { line_base: lb, line_range: lr, ..lenc };
-            let wd = write::LineString::new(&b"/work/dir"[..], enc, &mut dwarf.line_strings);
-            let sf = write::LineString::new(&b"main.c"[..], enc, &mut dwarf.line_strings);
+            // all directory and file names of one program must use the same form
+            let inline_strings = enc.version <= 4 || r.chance(1, 2);
+            let mut mk = |b: &[u8], ls: &mut write::LineStringTable| -> write::LineString {
+                if inline_strings { write::LineString::String(b.to_vec()) } else { write::LineString::new(b, enc, ls) }
+            };
+            let wd = mk(&b"/work/dir"[..], &mut dwarf.line_strings);
+            let sf = mk(&b"main.c"[..], &mut dwarf.line_strings);
             let mut p = write::LineProgram::new(enc, lenc, wd, None, sf, None);
             if enc.version >= 5 && r.chance(1, 2) {
                 p.file_has_md5 = true;
@@ -1187,7 +1198,7 @@ fn gen_dwarf(seed: u64, endian: RunTimeEndian) -> Result<Secs, String> {
             let mut dirs = vec![p.default_directory()];
             for k in 0..r.below(3) {
                 let name = format!("inc{}", k);
-                let ls = if r.chance(1, 2) { write::LineString::String(name.into_bytes()) } else { write::LineString::new(name.as_bytes(), enc, &mut dwarf.line_strings) };
+                let ls = mk(name.as_bytes(), &mut dwarf.line_strings);
                 dirs.push(p.add_directory(ls));
             }
             let mut files = Vec::new();
@@ -1198,7 +1209,8 @@ fn gen_dwarf(seed: u64, endian: RunTimeEndian) -> Result<Secs, String> {
                 } else {
                     None
                 };
-                files.push(p.add_file(write::LineString::String(name.into_bytes()), *r.pick(&dirs), info));
+                let ls = mk(name.as_bytes(), &mut dwarf.line_strings);
+                files.push(p.add_file(ls, *r.pick(&dirs), info));
             }
             let mil = lenc.minimum_instruction_length as u64;
             let mut base = 0x1000u64;
@@ -1292,9 +1304,7 @@ fn gen_dwarf(seed: u64, endian: RunTimeEndian) -> Result<Secs, String> {
             if *with_lines {
                 e.set(c::DW_AT_stmt_list, write::AttributeValue::LineProgramRef);
             }
-            if r.chance(5, 6) {
-                e.set(c::DW_AT_low_pc, write::AttributeValue::Address(Address::Constant(low_pc)));
-            }
+            e.set(c::DW_AT_low_pc, write::AttributeValue::Address(Address::Constant(low_pc)));
         }
         let files: Vec<write::FileId> = {
             let unit = dwarf.units.get(*uid);
@@ -1305,7 +1315,8 @@ fn gen_dwarf(seed: u64, endian: RunTimeEndian) -> Result<Secs, String> {
                      c::DW_AT_data_member_location, c::DW_AT_encoding, c::DW_AT_signature, c::DW_AT_call_file, c::DW_AT_upper_bound,
                      c::DW_AT_description, c::DW_AT_high_pc, c::DW_AT_entry_pc, c::DW_AT_specification, c::DW_AT_artificial, c::DW_AT_accessibility];
         for &eid in locals.iter() {
-            let nattr = r.below(6);
+            let is_base = bases.contains(&eid);
+            let nattr = if is_base { 0 } else { r.below(6) };
             {
                 let nm = format!("e{}", r.below(50));
                 let v = if r.chance(1, 2) { write::AttributeValue::StringRef(dwarf.strings.add(nm.into_bytes())) } else { write::AttributeValue::String(nm.into_bytes()) };
